@@ -15,7 +15,9 @@ Inductive c21_in :=
 | IToUni (v : pyval)                       (* r = to_unicode v ; utf8 r *)
 | IRecUni (v : pyval)                      (* recursive_unicode v *)
 | IQs (v : sval) (keep strict : bool)      (* parse_qs_bytes v keep strict *)
-| IQsRT (ps : list (list N * list N)) (keep strict : bool).
+| IQsRT (ps : list (list N * list N)) (keep strict : bool)
+| IQsRaw (ps : list (list N * list N)) (keep strict : bool).
+    (* like IQsRT, but only the bytes & = + % are percent-encoded; all other bytes are raw *)
     (* q = '&'.join(url_escape(k) + '=' + url_escape(v)) ; parse_qs_bytes(q as bytes) ; parse_qs_bytes(q as str) *)
 
 (* ---------- observables ---------- *)
@@ -131,6 +133,10 @@ Definition run_case (i : c21_in) : obs :=
       let q := encode_pairs ps in
       OList [obytes q; ores oqs (parse_qs_bytes (SBytes q) keep strict);
              ores oqs (parse_qs_bytes (SStr q) keep strict)]
+  | IQsRaw ps keep strict =>
+      let q := encode_pairs_with qs_escape_min ps in
+      OList [obytes q; ores oqs (parse_qs_bytes (SBytes q) keep strict);
+             ores oqs (parse_qs_bytes (SStr q) keep strict)]
   end.
 
 (* ---------- the property, stated on observables ---------- *)
@@ -212,6 +218,13 @@ Definition check_case (i : c21_in) (o : obs) : bool :=
       | _, _ => false
       end
   | IQsRT ps keep strict =>
+      match o with
+      | OList [_; rb; rs] =>
+          let want := oqs (group_pairs (keep_filter keep ps)) in
+          obs_eqb rb want && obs_eqb rs want
+      | _ => false
+      end
+  | IQsRaw ps keep strict =>
       match o with
       | OList [_; rb; rs] =>
           let want := oqs (group_pairs (keep_filter keep ps)) in
